@@ -8,6 +8,7 @@ import (
 	"github.com/ohler55/slip"
 	vrt "github.com/ohler55/slip/zzvrt"
 	"runtime"
+	"strconv"
 	"time"
 )
 
@@ -87,13 +88,19 @@ func zzC09MakeTab(alpha string) (tab [256]uint8) {
 var zzC09FmtGrid = []int64{0, 1, 4, 9, 10, 14, 19, 20, 21, 99, 100, 101, 110, 999, 1000, 1001, 1100, 2000, 3999, 4000, 10000,
 	100000, 1000000, 1000001, 1000000000, 1234567, -1, -10, -1000, -4000, 9223372036854775807, -9223372036854775808}
 
-// zzC09FmtArg builds argument number i of kind k: 0 symbolic fixnum (full
-// range), 1 short string, 2 short list, 3 nil, 4 character, 5 double-float.
+// zzC09FmtInts: the fixnum arguments of C09.format, one engine fork each (a
+// symbolic fixnum is useless here: slip converts integer directive parameters
+// through float64 (Integer.RealValue) and ~R walks the decimal digits, neither
+// of which the engine models).
+var zzC09FmtInts = []int64{0, 1, 3, -1, 1 << 40, -(1 << 40), 9223372036854775807, -9223372036854775808}
+
+// zzC09FmtArg builds argument number i of kind k: 0 a fixnum of zzC09FmtInts
+// (engine fork), 1 short string, 2 short list, 3 nil, 4 character, 5 double-float,
+// 6 the fixnum 7.
 func zzC09FmtArg(i, k int, ints *[]int64) slip.Object {
 	switch k {
 	case 0:
-		x := vrt.Int64("arg" + string(rune('0'+i)))
-		zzC09Gap(x)
+		x := zzC09FmtInts[vrt.Choice("arg"+string(rune('0'+i)), len(zzC09FmtInts))]
 		*ints = append(*ints, x)
 		return slip.Fixnum(x)
 	case 1:
@@ -104,6 +111,8 @@ func zzC09FmtArg(i, k int, ints *[]int64) slip.Object {
 		return slip.Character('a')
 	case 5:
 		return slip.DoubleFloat(1.5)
+	case 6:
+		return slip.Fixnum(7)
 	}
 	return nil
 }
@@ -118,19 +127,11 @@ func zzC09FmtCtl(n int) []byte {
 
 // VerifC09Format: (format nil <control> args...) with a control string of n
 // symbolic bytes over the directive alphabet (the first byte is `~` when
-// tilde != 0) and the arguments selected by k0, k1 (-1: absent).  The text of
-// a symbolic integer is not modelled (opaque_int_text), so control strings
-// containing the radix directive letter are left to VerifC09FormatRadix when
-// an argument is a symbolic fixnum.
+// tilde != 0) and the arguments selected by k0, k1 (-1: absent).
 func VerifC09Format(n, tilde, k0, k1 int) {
 	ctl := zzC09FmtCtl(n)
 	if tilde != 0 && 0 < n {
 		vrt.Assume(ctl[0] == '~')
-	}
-	if k0 == 0 || k1 == 0 {
-		for i := range ctl {
-			vrt.Assume(ctl[i] != 'r')
-		}
 	}
 	var ints []int64
 	form := slip.List{slip.Symbol("format"), nil, slip.String(ctl)}
@@ -150,18 +151,246 @@ func VerifC09Format(n, tilde, k0, k1 int) {
 func VerifC09FormatRadix(n, g int) {
 	ctl := zzC09FmtCtl(n)
 	vrt.Assume(ctl[0] == '~' && ctl[n-1] == 'r')
+	for i := range ctl {
+		// the only argument is the one of the radix directive (a `v` parameter
+		// would consume it as a count: covered by VerifC09Format)
+		vrt.Assume(ctl[i] != 'v')
+	}
 	form := slip.List{slip.Symbol("format"), nil, slip.String(ctl), slip.Fixnum(zzC09FmtGrid[g])}
 	zzC09RadixCarves(ctl, zzC09FmtGrid[g])
 	zzC09Streams()
 	zzC09Guarded(slip.NewScope(), form, nil)
 }
 
+// zzC09FmtScan walks a control string with the simple model of the flat
+// directives: after `~` a prefix of parameters and modifiers (: @ , # v 'c and
+// decimal digits), then the directive character.  Every `v` and every
+// directive of zzC09FmtTakes consumes the next argument.  It reports
+//
+//	missing  a `v` parameter or an argument-consuming directive is met when
+//	         no argument is left (the recorded index-out-of-range family), and
+//	vhuge    a `v` parameter consumed a symbolic fixnum argument: bit i set
+//	         when argument i was consumed by a `v`.
+//
+// The scan stops (nothing reported beyond that point) at the first directive
+// outside the simple model (* ? ( ) [ ] { } < > / ; ^), at a prefix the real
+// parser rejects (second `:` or `@`, `,` after a modifier), and at a directive
+// that raises a condition for the argument kind it gets (c without a
+// character, $ r without a number, p r without an argument).
+func zzC09FmtScan(ctl []byte, kinds []int) (missing bool, vargs int) {
+	argPos := 0
+	i := 0
+	for i < len(ctl) {
+		if ctl[i] != '~' {
+			i++
+			continue
+		}
+		i++
+		colon, at := false, false
+		params := 0
+		var d byte
+		for i < len(ctl) {
+			b := ctl[i]
+			i++
+			if b == ':' {
+				if colon {
+					return
+				}
+				colon = true
+				continue
+			}
+			if b == '@' {
+				if at {
+					return
+				}
+				at = true
+				continue
+			}
+			if b == ',' {
+				if colon || at {
+					return
+				}
+				continue
+			}
+			if b == '#' {
+				params++
+				continue
+			}
+			if b == 'v' {
+				params++
+				if argPos < 0 {
+					continue
+				}
+				if len(kinds) <= argPos {
+					missing = true
+					return
+				}
+				vargs |= 1 << argPos
+				argPos++
+				continue
+			}
+			if b == '\'' {
+				// a character parameter: the bytes up to the next directive
+				// byte; only a single byte is inside the simple model
+				cnt := 0
+				for i < len(ctl) && zzC09FmtDirByte[ctl[i]] == 0 {
+					i++
+					cnt++
+				}
+				if cnt != 1 {
+					return
+				}
+				params++
+				continue
+			}
+			if b == '-' || ('0' <= b && b <= '9') {
+				// a number: the real parser reads up to the next non-parameter
+				// byte and rejects anything strconv.ParseInt rejects
+				if b == '-' && (len(ctl) <= i || ctl[i] < '0' || '9' < ctl[i]) {
+					return
+				}
+				for i < len(ctl) && '0' <= ctl[i] && ctl[i] <= '9' {
+					i++
+				}
+				params++
+				continue
+			}
+			d = b
+			break
+		}
+		switch zzC09FmtClass[d] {
+		case 1: // consumes an argument without looking whether one is left
+			if argPos < 0 {
+				break
+			}
+			if len(kinds) <= argPos {
+				missing = true
+				return
+			}
+			k := kinds[argPos]
+			if d == 'c' && k != 4 {
+				return
+			}
+			if d == '$' && k != 0 && k != 5 && k != 6 {
+				return
+			}
+			argPos++
+		case 2: // checks for its argument itself
+			if d == 'p' && colon {
+				argPos--
+			}
+			if argPos < 0 || len(kinds) <= argPos {
+				return
+			}
+			if d == 'r' && kinds[argPos] != 0 && kinds[argPos] != 6 {
+				return
+			}
+			argPos++
+		case 3: // takes no argument
+		case 4: // ~* without a parameter moves the argument pointer
+			if 0 < params || (colon && at) {
+				return
+			}
+			if colon {
+				argPos--
+			} else if at {
+				argPos = 0
+			} else {
+				argPos++
+			}
+		case 5: // ~? takes a control string and (without @) an argument list
+			if argPos < 0 {
+				return
+			}
+			if argPos < len(kinds) {
+				if kinds[argPos] != 1 {
+					return
+				}
+				argPos++ // the pool string "ab" contains no directive
+			}
+			if !at {
+				if argPos < len(kinds) && kinds[argPos] != 2 {
+					return
+				}
+				argPos++
+			}
+		case 6: // ~/name/ with the name of an existing function
+			if len(ctl) < i+2 || ctl[i+1] != '/' || zzC09FmtFunc1[ctl[i]] == 0 {
+				return
+			}
+			if 0 <= argPos && len(kinds) <= argPos {
+				missing = true
+			}
+			return // the call itself raises a condition (wrong argument types)
+		default:
+			return
+		}
+	}
+	return
+}
+
+// zzC09FmtDirByte: the bytes that end a character parameter (the x entries of
+// dirScanMap restricted to the harness alphabet plus the rest of ASCII the
+// real table marks).
+var zzC09FmtDirByte = zzC09MakeTab("\n$%&()*,/:<=>?@ABCDEFGIOPRSTWX[]^abcdefgioprstwx{|}~")
+
+// zzC09FmtFunc1: one-byte names of existing functions within the alphabet.
+var zzC09FmtFunc1 = zzC09MakeTab("<>*-")
+
+// zzC09FmtClass: 1 = directive consuming an argument unchecked, 2 = checked,
+// 3 = no argument, 0 = outside the simple model.
+var zzC09FmtClass = zzC09FmtClasses()
+
+func zzC09FmtClasses() (tab [256]uint8) {
+	for _, b := range []byte("asdboxcwefg$") {
+		tab[b] = 1
+	}
+	for _, b := range []byte("rp") {
+		tab[b] = 2
+	}
+	for _, b := range []byte("%&|~t\n^") {
+		tab[b] = 3
+	}
+	tab['*'] = 4
+	tab['?'] = 5
+	tab['/'] = 6
+	return
+}
+
 // zzC09FmtCarves: regions of the recorded findings of C09.format.
 func zzC09FmtCarves(ctl []byte, k0, k1 int, ints []int64) {
+	var kinds []int
+	if 0 <= k0 {
+		kinds = append(kinds, k0)
+		if 0 <= k1 {
+			kinds = append(kinds, k1)
+		}
+	}
+	missing, vargs := zzC09FmtScan(ctl, kinds)
+	vrt.Carve("C09-format-missing-argument", missing)
+	// a count/width parameter taken from a fixnum argument above 2^31
+	huge := false
+	j := 0
+	for a := 0; a < len(kinds); a++ {
+		if kinds[a] == 0 {
+			if vargs&(1<<a) != 0 && zzC09Huge < ints[j] {
+				huge = true
+			}
+			j++
+		}
+	}
+	vrt.Carve("C09-format-parameter-unbounded", huge)
 }
 
 // zzC09RadixCarves: regions of the recorded findings of C09.format.radix.
 func zzC09RadixCarves(ctl []byte, x int64) {
+	at := false
+	for i := 1; i+1 < len(ctl); i++ {
+		if ctl[i] == '@' {
+			at = true
+		}
+	}
+	vrt.Carve("C09-format-radix-thousands", !at && x != 0 && x%1000 == 0)
 }
 
 // ---- common runner ----
@@ -185,18 +414,16 @@ func zzC09Guarded(scope *slip.Scope, form slip.Object, ints []int64) {
 		vrt.Reach("large-allocation-cut")
 		return
 	}
-	if cut == 3 {
-		// the evaluation did not finish within the budget: if an integer
-		// argument can be above 2^31 here, the work is bounded by that argument
-		// only (the native replay of the model runs under a 10 s / 2 GiB watchdog)
-		for _, x := range ints {
-			vrt.Assert(x <= zzC09Huge, "work bounded only by an integer argument that can exceed 2^31 (hang / unbounded allocation)")
-		}
-		vrt.Unsupported("evaluation exceeds the step budget although every integer argument is at most 2^31")
-		return
-	}
-	if cut == 4 {
-		vrt.Unsupported("evaluation forks more often than the decision budget")
+	if cut == 3 || cut == 4 {
+		// a fault raised before the budget ran out (e.g. while the wrapped
+		// panic's stack is being printed) is a fault all the same
+		vrt.Assert(vrt.Faults() <= 0, "Go run-time fault instead of a Lisp condition")
+		// every integer of the case is at most zzC09Small or above 2^31 (or
+		// negative), sequences have at most 4 elements: an evaluation that
+		// outruns the budget is bounded only by such an integer.  The native
+		// replay of the model runs under a 10 s / 2 GiB watchdog and only a
+		// native hang or unbounded allocation confirms it.
+		vrt.Assert(false, "evaluation does not finish: work bounded only by an integer argument (hang / unbounded allocation)")
 		return
 	}
 	zzC09Check(class)
@@ -223,142 +450,142 @@ type zzC09IdxRow struct {
 }
 
 var zzC09IdxRows = []zzC09IdxRow{
-	{"(subseq S A)", "lvsb"},                                                        // 0
-	{"(subseq S A B)", "lvsb"},                                                      // 1
-	{"(nth A S)", "l"},                                                              // 2
-	{"(nthcdr A S)", "l"},                                                           // 3
-	{"(butlast S A)", "l"},                                                          // 4
-	{"(nbutlast S A)", "l"},                                                         // 5
-	{"(last S A)", "l"},                                                             // 6
-	{"(elt S A)", "lvsb"},                                                           // 7
-	{"(aref S A)", "vsb"},                                                           // 8
-	{"(svref S A)", "v"},                                                            // 9
-	{"(char S A)", "s"},                                                             // 10
-	{"(schar S A)", "s"},                                                            // 11
-	{"(bit S A)", "b"},                                                              // 12
-	{"(sbit S A)", "b"},                                                             // 13
-	{"(fill S Y :start A :end B)", "lvsb"},                                          // 14
-	{"(replace S T :start1 A :end1 B)", "lvsb"},                                     // 15
-	{"(replace S T :start2 A :end2 B)", "lvsb"},                                     // 16
-	{"(search T S :start1 A :end1 B)", "lvsb"},                                      // 17
-	{"(search T S :start2 A :end2 B)", "lvsb"},                                      // 18
-	{"(mismatch S T :start1 A :end1 B)", "lvsb"},                                    // 19
-	{"(mismatch S T :start2 A :end2 B)", "lvsb"},                                    // 20
-	{"(position X S :start A :end B)", "lvsb"},                                      // 21
-	{"(position X S :start A :end B :from-end t)", "lvsb"},                          // 22
-	{"(find X S :start A :end B)", "lvsb"},                                          // 23
-	{"(count X S :start A :end B)", "lvsb"},                                         // 24
-	{"(remove X S :start A :end B)", "lvsb"},                                        // 25
-	{"(remove X S :count A)", "lvsb"},                                               // 26
-	{"(delete X S :start A :end B)", "lvsb"},                                        // 27
-	{"(delete X S :count A)", "lvsb"},                                               // 28
-	{"(substitute Y X S :start A :end B)", "lvsb"},                                  // 29
-	{"(substitute Y X S :count A)", "lvsb"},                                         // 30
-	{"(nsubstitute Y X S :start A :end B)", "lvsb"},                                 // 31
-	{"(nsubstitute Y X S :count A)", "lvsb"},                                        // 32
-	{"(position-if (function identity) S :start A :end B)", "lv"},                   // 33
-	{"(find-if (function identity) S :start A :end B)", "lv"},                       // 34
-	{"(count-if (function identity) S :start A :end B)", "lv"},                      // 35
-	{"(remove-if (function identity) S :start A :end B)", "lv"},                     // 36
-	{"(remove-if (function identity) S :count A)", "lv"},                            // 37
-	{"(delete-if (function identity) S :start A :end B)", "lv"},                     // 38
-	{"(substitute-if Y (function identity) S :start A :end B)", "lv"},               // 39
-	{"(nsubstitute-if Y (function identity) S :start A :end B)", "lv"},              // 40
-	{"(remove-duplicates S :start A :end B)", "lvs"},                                // 41
-	{"(delete-duplicates S :start A :end B)", "lvs"},                                // 42
-	{"(reduce (function list) S :start A :end B)", "lv"},                            // 43
-	{"(make-list A)", "-"},                                                          // 44
-	{"(make-string A)", "-"},                                                        // 45
-	{"(make-array A)", "-"},                                                         // 46
-	{"(make-array (list A B))", "-"},                                                // 47
-	{"(make-array A :element-type (quote bit))", "-"},                               // 48
-	{"(make-sequence (quote list) A)", "-"},                                         // 49
-	{"(make-sequence (quote string) A)", "-"},                                       // 50
-	{"(make-sequence (quote vector) A)", "-"},                                       // 51
-	{"(string-upcase S :start A :end B)", "s"},                                      // 52
-	{"(string-downcase S :start A :end B)", "s"},                                    // 53
-	{"(string-capitalize S :start A :end B)", "s"},                                  // 54
-	{"(nstring-upcase S :start A :end B)", "s"},                                     // 55
-	{"(nstring-downcase S :start A :end B)", "s"},                                   // 56
-	{"(nstring-capitalize S :start A :end B)", "s"},                                 // 57
-	{"(string= S T :start1 A :end1 B)", "s"},                                        // 58
-	{"(string= S T :start2 A :end2 B)", "s"},                                        // 59
-	{"(string< S T :start1 A :end1 B)", "s"},                                        // 60
-	{"(string< S T :start2 A :end2 B)", "s"},                                        // 61
-	{"(string-equal S T :start1 A :end1 B)", "s"},                                   // 62
-	{"(string-lessp S T :start2 A :end2 B)", "s"},                                   // 63
-	{"(string/= S T :start1 A :end2 B)", "s"},                                       // 64
-	{"(string> S T :start1 A :end1 B)", "s"},                                        // 65
-	{"(string-not-equal S T :start1 A :end1 B)", "s"},                               // 66
-	{"(parse-integer S :start A :end B)", "s"},                                      // 67
-	{"(parse-integer S :radix A)", "s"},                                             // 68
-	{"(read-from-string S nil nil :start A :end B)", "s"},                           // 69
-	{"(write-string S nil :start A :end B)", "s"},                                   // 70
-	{"(write-line S nil :start A :end B)", "s"},                                     // 71
-	{"(write-sequence S *standard-output* :start A :end B)", "lvs"},                 // 72
-	{"(make-string-input-stream S A B)", "s"},                                       // 73
-	{"(with-input-from-string (zzs S :start A :end B) (read-char zzs nil))", "s"},   // 74
-	{"(ash A B)", "-"},                                                              // 75
-	{"(expt A B)", "-"},                                                             // 76
-	{"(gi:string-repeat \"ab\" A)", "-"},                                            // 77
-	{"(logbitp A B)", "-"},                                                          // 78
-	{"(ldb (byte A B) -5)", "-"},                                                    // 79
-	{"(dpb -3 (byte A B) 5)", "-"},                                                  // 80
-	{"(ldb-test (byte A B) -5)", "-"},                                               // 81
-	{"(mask-field (byte A B) -5)", "-"},                                             // 82
-	{"(deposit-field -3 (byte A B) 5)", "-"},                                        // 83
-	{"(code-char A)", "-"},                                                          // 84
-	{"(digit-char A B)", "-"},                                                       // 85
-	{"(digit-char-p #\\a A)", "-"},                                                  // 86
-	{"(make-string A :initial-element #\\a)", "-"},                                  // 87
-	{"(make-list A :initial-element 1)", "-"},                                       // 88
-	{"(adjust-array S A)", "vsb"},                                                   // 89
-	{"(row-major-aref S A)", "vsb"},                                                 // 90
-	{"(array-dimension S A)", "vsb"},                                                // 91
-	{"(array-in-bounds-p S A)", "vsb"},                                              // 92
-	{"(array-row-major-index S A)", "vsb"},                                          // 93
-	{"(aref (make-array (quote (2 2))) A B)", "-"},                                  // 94
-	{"(array-row-major-index (make-array (quote (2 2))) A B)", "-"},                 // 95
-	{"(setf (aref S A) Y)", "vsb"},                                                  // 96
-	{"(setf (elt S A) Y)", "lvsb"},                                                  // 97
-	{"(setf (nth A S) Y)", "l"},                                                     // 98
-	{"(setf (subseq S A B) T)", "lvsb"},                                             // 99
-	{"(setf (char S A) Y)", "s"},                                                    // 100
-	{"(setf (bit S A) Y)", "b"},                                                     // 101
-	{"(floor A B)", "-"},                                                            // 102
-	{"(ceiling A B)", "-"},                                                          // 103
-	{"(truncate A B)", "-"},                                                         // 104
-	{"(round A B)", "-"},                                                            // 105
-	{"(mod A B)", "-"},                                                              // 106
-	{"(rem A B)", "-"},                                                              // 107
-	{"(/ A B)", "-"},                                                                // 108
-	{"(gi:make-octets A)", "-"},                                                     // 109
-	{"(nthcdr A (quote (1 2 . 3)))", "-"},                                           // 110
-	{"(butlast (quote (1 2 . 3)) A)", "-"},                                          // 111
-	{"(random A)", "-"},                                                             // 112
-	{"(dotimes (zzi A) nil)", "-"},                                                  // 113
-	{"(vector-push-extend Y S A)", "v"},                                             // 114
-	{"(make-array 2 :fill-pointer A)", "-"},                                         // 115
-	{"(setf (fill-pointer (make-array 3 :fill-pointer 1)) A)", "-"},                 // 116
-	{"(make-hash-table :size A)", "-"},                                              // 117
-	{"(nth-value A (values 1 2))", "-"},                                             // 118
-	{"(list-length S)", "l"},                                                        // 119
-	{"(string-left-trim T S)", "s"},                                                 // 120
-	{"(concatenate (quote string) S T)", "s"},                                       // 121
-	{"(map-into S (function identity) T)", "lv"},                                    // 122
-	{"(boole A B C)", "-"},                                                          // 123
-	{"(scale-float 1.5 A)", "-"},                                                    // 124
-	{"(float-sign 1.0 2.0)", "-"},                                                   // 125
-	{"(byte-size (byte A B))", "-"},                                                 // 126
-	{"(last (quote (1 2 . 3)) A)", "-"},                                             // 127
-	{"(peek-char nil (make-string-input-stream S A))", "s"},                         // 128
-	{"(file-position (make-string-input-stream S) A)", "s"},                         // 129
-	{"(read-sequence S (make-string-input-stream \"xyz\") :start A :end B)", "lvs"}, // 130
-	{"(subseq S A nil)", "lvsb"},                                                    // 131
-	{"(bit-and S T)", "b"},                                                          // 132
-	{"(bit-not S)", "b"},                                                            // 133
-	{"(bit-xor S T S)", "b"},                                                        // 134
-	{"(format nil \"~vd\" A 1)", "-"},                                               // 135
+	{"(subseq S A)", "lvsb"},                                                      // 0
+	{"(subseq S A B)", "lvsb"},                                                    // 1
+	{"(nth A S)", "l"},                                                            // 2
+	{"(nthcdr A S)", "l"},                                                         // 3
+	{"(butlast S A)", "l"},                                                        // 4
+	{"(nbutlast S A)", "l"},                                                       // 5
+	{"(last S A)", "l"},                                                           // 6
+	{"(elt S A)", "lvsb"},                                                         // 7
+	{"(aref S A)", "vb"},                                                          // 8
+	{"(svref S A)", "v"},                                                          // 9
+	{"(char S A)", "s"},                                                           // 10
+	{"(schar S A)", "s"},                                                          // 11
+	{"(bit S A)", "b"},                                                            // 12
+	{"(sbit S A)", "b"},                                                           // 13
+	{"(fill S Y :start A :end B)", "lvsb"},                                        // 14
+	{"(replace S T :start1 A :end1 B)", "lvsb"},                                   // 15
+	{"(replace S T :start2 A :end2 B)", "lvsb"},                                   // 16
+	{"(search T S :start1 A :end1 B)", "lvs"},                                     // 17
+	{"(search T S :start2 A :end2 B)", "lvs"},                                     // 18
+	{"(mismatch S T :start1 A :end1 B)", "lvsb"},                                  // 19
+	{"(mismatch S T :start2 A :end2 B)", "lvsb"},                                  // 20
+	{"(position X S :start A :end B)", "lvs"},                                     // 21
+	{"(position X S :start A :end B :from-end t)", "lvs"},                         // 22
+	{"(find X S :start A :end B)", "lvs"},                                         // 23
+	{"(count X S :start A :end B)", "lvsb"},                                       // 24
+	{"(remove X S :start A :end B)", "lvs"},                                       // 25
+	{"(remove X S :count A)", "lvs"},                                              // 26
+	{"(delete X S :start A :end B)", "lvs"},                                       // 27
+	{"(delete X S :count A)", "lvs"},                                              // 28
+	{"(substitute Y X S :start A :end B)", "lvs"},                                 // 29
+	{"(substitute Y X S :count A)", "lvs"},                                        // 30
+	{"(nsubstitute Y X S :start A :end B)", "lvs"},                                // 31
+	{"(nsubstitute Y X S :count A)", "lvs"},                                       // 32
+	{"(position-if (function numberp) S :start A :end B)", "lv"},                  // 33
+	{"(find-if (function numberp) S :start A :end B)", "lv"},                      // 34
+	{"(count-if (function numberp) S :start A :end B)", "lv"},                     // 35
+	{"(remove-if (function numberp) S :start A :end B)", "lv"},                    // 36
+	{"(remove-if (function numberp) S :count A)", "lv"},                           // 37
+	{"(delete-if (function numberp) S :start A :end B)", "lv"},                    // 38
+	{"(substitute-if Y (function numberp) S :start A :end B)", "lv"},              // 39
+	{"(nsubstitute-if Y (function numberp) S :start A :end B)", "lv"},             // 40
+	{"(remove-duplicates S :start A :end B)", "lvs"},                              // 41
+	{"(delete-duplicates S :start A :end B)", "lvs"},                              // 42
+	{"(reduce (function list) S :start A :end B)", "lv"},                          // 43
+	{"(make-list A)", "-"},                                                        // 44
+	{"(make-string A)", "-"},                                                      // 45
+	{"(make-array A)", "-"},                                                       // 46
+	{"(make-array (list A B))", "-"},                                              // 47
+	{"(make-array A :element-type (quote bit))", "-"},                             // 48
+	{"(make-sequence (quote list) A)", "-"},                                       // 49
+	{"(make-sequence (quote string) A)", "-"},                                     // 50
+	{"(make-sequence (quote vector) A)", "-"},                                     // 51
+	{"(string-upcase S :start A :end B)", "s"},                                    // 52
+	{"(string-downcase S :start A :end B)", "s"},                                  // 53
+	{"(string-capitalize S :start A :end B)", "s"},                                // 54
+	{"(nstring-upcase S :start A :end B)", "s"},                                   // 55
+	{"(nstring-downcase S :start A :end B)", "s"},                                 // 56
+	{"(nstring-capitalize S :start A :end B)", "s"},                               // 57
+	{"(string= S T :start1 A :end1 B)", "s"},                                      // 58
+	{"(string= S T :start2 A :end2 B)", "s"},                                      // 59
+	{"(string< S T :start1 A :end1 B)", "s"},                                      // 60
+	{"(string< S T :start2 A :end2 B)", "s"},                                      // 61
+	{"(string-equal S T :start1 A :end1 B)", "s"},                                 // 62
+	{"(string-lessp S T :start2 A :end2 B)", "s"},                                 // 63
+	{"(string/= S T :start1 A :end2 B)", "s"},                                     // 64
+	{"(string> S T :start1 A :end1 B)", "s"},                                      // 65
+	{"(string-not-equal S T :start1 A :end1 B)", "s"},                             // 66
+	{"(parse-integer \"1234\" :start A :end B)", "-"},                             // 67
+	{"(parse-integer S :radix A)", "s"},                                           // 68
+	{"(read-from-string S nil nil :start A :end B)", "s"},                         // 69
+	{"(write-string S *standard-output* :start A :end B)", "s"},                   // 70
+	{"(write-line S *standard-output* :start A :end B)", "s"},                     // 71
+	{"(write-sequence S *standard-output* :start A :end B)", "ls"},                // 72
+	{"(make-string-input-stream S A B)", "s"},                                     // 73
+	{"(with-input-from-string (zzs S :start A :end B) (read-char zzs nil))", "s"}, // 74
+	{"(ash A B)", "-"},                                                            // 75
+	{"(dpb -3 (byte 2 A) 5)", "-"},                                                // 76
+	{"(gi:string-repeat \"ab\" A)", "-"},                                          // 77
+	{"(logbitp A B)", "-"},                                                        // 78
+	{"(ldb (byte A 2) -5)", "-"},                                                  // 79
+	{"(dpb -3 (byte A 2) 5)", "-"},                                                // 80
+	{"(ldb (byte 2 A) -5)", "-"},                                                  // 81
+	{"(mask-field (byte A 2) -5)", "-"},                                           // 82
+	{"(deposit-field -3 (byte 2 A) 5)", "-"},                                      // 83
+	{"(code-char A)", "-"},                                                        // 84
+	{"(digit-char A B)", "-"},                                                     // 85
+	{"(digit-char-p #\\a A)", "-"},                                                // 86
+	{"(make-string A :initial-element #\\a)", "-"},                                // 87
+	{"(make-list A :initial-element 1)", "-"},                                     // 88
+	{"(adjust-array S A)", "vb"},                                                  // 89
+	{"(row-major-aref S A)", "vb"},                                                // 90
+	{"(array-dimension S A)", "vb"},                                               // 91
+	{"(array-in-bounds-p S A)", "vb"},                                             // 92
+	{"(array-row-major-index S A)", "vb"},                                         // 93
+	{"(aref (make-array (quote (2 2))) A B)", "-"},                                // 94
+	{"(array-row-major-index (make-array (quote (2 2))) A B)", "-"},               // 95
+	{"(setf (aref S A) Y)", "vb"},                                                 // 96
+	{"(setf (elt S A) Y)", "lvb"},                                                 // 97
+	{"(setf (nth A S) Y)", "l"},                                                   // 98
+	{"(setf (subseq S A B) T)", "lvb"},                                            // 99
+	{"(make-string-input-stream S A)", "s"},                                       // 100
+	{"(setf (bit S A) Y)", "b"},                                                   // 101
+	{"(floor A B)", "-"},                                                          // 102
+	{"(ceiling A B)", "-"},                                                        // 103
+	{"(truncate A B)", "-"},                                                       // 104
+	{"(round A B)", "-"},                                                          // 105
+	{"(mod A B)", "-"},                                                            // 106
+	{"(rem A B)", "-"},                                                            // 107
+	{"(mask-field (byte 2 A) -5)", "-"},                                           // 108
+	{"(gi:make-octets A)", "-"},                                                   // 109
+	{"(nthcdr A (quote (1 2 . 3)))", "-"},                                         // 110
+	{"(butlast (quote (1 2 . 3)) A)", "-"},                                        // 111
+	{"(random A)", "-"},                                                           // 112
+	{"(deposit-field -3 (byte A 2) 5)", "-"},                                      // 113
+	{"(vector-push-extend Y (make-array 2 :fill-pointer A))", "-"},                // 114
+	{"(make-array 2 :fill-pointer A)", "-"},                                       // 115
+	{"(setf (fill-pointer (make-array 3 :fill-pointer 1)) A)", "-"},               // 116
+	{"(make-hash-table :size A)", "-"},                                            // 117
+	{"(nth-value A (values 1 2))", "-"},                                           // 118
+	{"(list-length S)", "l"},                                                      // 119
+	{"(string-left-trim T S)", "s"},                                               // 120
+	{"(concatenate (quote string) S T)", "s"},                                     // 121
+	{"(map-into S (function 1+) T)", "lv"},                                        // 122
+	{"(boole boole-and A B)", "-"},                                                // 123
+	{"(ldb-test (byte A 2) -5)", "-"},                                             // 124
+	{"(float-sign 1.0 2.0)", "-"},                                                 // 125
+	{"(byte-size (byte A B))", "-"},                                               // 126
+	{"(last (quote (1 2 . 3)) A)", "-"},                                           // 127
+	{"(peek-char nil (make-string-input-stream S A))", "s"},                       // 128
+	{"(file-position (make-string-input-stream S) A)", "s"},                       // 129
+	{"(subseq S A A)", "lvsb"},                                                    // 130
+	{"(subseq S A nil)", "lvsb"},                                                  // 131
+	{"(bit-and S T)", "b"},                                                        // 132
+	{"(bit-not S)", "b"},                                                          // 133
+	{"(bit-xor S T S)", "b"},                                                      // 134
+	{"(expt 2 A)", "-"},                                                           // 135
 }
 
 const zzC09KindChars = "lvsb"
@@ -419,7 +646,7 @@ func VerifC09Index(row, kind, n int) {
 	scope := slip.NewScope()
 	code := slip.ReadString(r.tmpl, scope)
 	tmpl := code[0]
-	env := map[string]slip.Object{}
+	env := map[string]slip.Object{"X": slip.Fixnum(2), "Y": slip.Fixnum(9)}
 	if r.kinds != "-" {
 		k := zzC09KindChars[kind]
 		applies := false
@@ -460,8 +687,68 @@ func VerifC09Index(row, kind, n int) {
 	zzC09Guarded(scope, form, ints)
 }
 
-// zzC09IdxCarves: regions of the recorded findings of C09.index.
+// zzC09IdxCarves: regions of the recorded findings of C09.index, by family:
+// (row of zzC09IdxRows, sequence kind, length, region over A B).
 func zzC09IdxCarves(row, kind, n int, ints []int64) {
+	var a, b int64
+	if 0 < len(ints) {
+		a = ints[0]
+	}
+	if 1 < len(ints) {
+		b = ints[1]
+	}
+	ln := int64(n)
+	// :start/:end (subseq: start end) both inside the sequence, start > end
+	startGtEnd := false
+	switch row {
+	case 1, 21, 22, 23, 33, 34:
+		startGtEnd = kind != 3 && 0 <= b && b < a && a <= ln
+	}
+	vrt.Carve("C09-index-start-greater-than-end", startGtEnd)
+	// fixnum division by a zero divisor
+	divZero := false
+	switch row {
+	case 102, 103, 104, 105, 106, 107:
+		divZero = b == 0
+	case 112:
+		divZero = a == 0
+	}
+	vrt.Carve("C09-integer-divide-by-zero", divZero)
+	// a negative size, count or byte-specifier field
+	negative := false
+	switch row {
+	case 46, 77, 127:
+		negative = a < 0
+	case 6:
+		negative = a < 0 && 1 <= n
+	case 89:
+		negative = a < 0 && (kind == 1 || kind == 3)
+	case 76, 79, 80, 82, 83, 108, 113, 124:
+		negative = a < 0
+	}
+	// (ash x most-negative-fixnum): the negated count is negative again
+	if row == 75 {
+		negative = b == -9223372036854775808
+	}
+	vrt.Carve("C09-negative-size", negative)
+	// a size above 2^31 is allocated (or looped over) without a limit
+	huge := false
+	switch row {
+	case 44, 46, 48, 49, 50, 51, 76, 77, 79, 80, 82, 83, 87, 88, 108, 109, 113, 124:
+		huge = zzC09Huge < a
+	case 89:
+		huge = zzC09Huge < a && kind == 3
+	}
+	vrt.Carve("C09-size-unbounded", huge)
+	// invalid bounds, or nothing to read between them (end of file: the default
+	// eof-error-p of the row is nil, so only the bounds panic applies to it;
+	// row 69 passes eof-error-p nil: start == len is rejected as a bound)
+	be := b // a negative :end means the end of the string
+	if row == 69 && b < 0 {
+		be = ln
+	}
+	vrt.Carve("C09-plain-string-panic", row == 69 && (a < 0 || ln <= a || ln < be || be < a))
+	vrt.Carve("C09-reduce-empty-sequence", row == 43 && kind == 0 && n == 0)
 }
 
 // ---- (d) type tuples ----
@@ -560,6 +847,10 @@ var zzC09TupleExcluded = map[string]string{
 	"gi:decrypt-file":                      "writes files",
 	"gi:save":                              "writes a file",
 	"bag:load-bag":                         "reads a file",
+	// math/rand with a math/big limit goes through the engine's native bridge,
+	// which cannot pass the interpreted random source (fixnum limits are
+	// covered by C09.index)
+	"common-lisp:random": "math/rand.(*Rand).Int over the native bridge",
 	// raises a Go panic by design
 	"gi:panic": "raises its argument as a Go panic (the documented purpose of the function)",
 	// the engine cannot execute the body (native runtime / OS structures)
@@ -638,8 +929,8 @@ func zzC09EvalFunc(scope *slip.Scope, fi *slip.FuncInfo, objs []slip.Object) (cl
 }
 
 // VerifC09Tuple: function idx of the registry table called with one argument
-// (a0 == -1: every pool object in turn) or with two (a0 >= 0: pool object a0
-// first, every pool object in turn second).
+// (a0 == -1) or with two (a0 >= 0: pool object a0 first); the (other) argument
+// is pool object a1, a vrt.Choice the engine forks over.
 func VerifC09Tuple(idx, a0 int) {
 	key := zzC09Names[idx]
 	fi := zzC09Find(key)
@@ -649,26 +940,36 @@ func VerifC09Tuple(idx, a0 int) {
 		return
 	}
 	zzC09Streams()
-	for a1 := 0; a1 < zzC09PoolSize; a1++ {
-		scope := slip.NewScope()
-		var objs []slip.Object
-		if a0 < 0 {
-			objs = []slip.Object{zzC09PoolObj(scope, a1, "x0", false)}
-		} else {
-			objs = []slip.Object{zzC09PoolObj(scope, a0, "x0", false), zzC09PoolObj(scope, a1, "x1", false)}
-		}
-		zzC09TupleCarves(key, a0, a1)
-		class := zzC09Value
-		cut := zzC09Guard(zzC09Steps, zzC09Decisions, func() { class = zzC09EvalFunc(scope, fi, objs) })
-		vrt.Note("class", key, a0, a1, class, cut)
-		vrt.Reach("called")
-		vrt.Assert(cut == 0, "evaluation does not finish within its budget")
-		zzC09Check(class)
+	a1 := vrt.Choice("a1", zzC09PoolSize)
+	scope := slip.NewScope()
+	var objs []slip.Object
+	if a0 < 0 {
+		objs = []slip.Object{zzC09PoolObj(scope, a1, "x0", false)}
+	} else {
+		objs = []slip.Object{zzC09PoolObj(scope, a0, "x0", false), zzC09PoolObj(scope, a1, "x1", false)}
 	}
+	zzC09TupleCarves(key, a0, a1)
+	class := zzC09Value
+	cut := zzC09Guard(10*zzC09Steps, zzC09Decisions, func() { class = zzC09EvalFunc(scope, fi, objs) })
+	vrt.Note("class", key, a0, a1, class, cut)
+	vrt.Reach("called")
+	if cut != 0 {
+		vrt.Assert(vrt.Faults() <= 0, "Go run-time fault instead of a Lisp condition")
+	}
+	vrt.Assert(cut == 0, "evaluation does not finish within its budget")
+	zzC09Check(class)
 }
 
-// zzC09TupleCarves: regions of the recorded findings of C09.tuple.
+// zzC09TupleCarves: regions of the recorded findings of C09.tuple: the rows
+// of zzC09TupleKnown ("function|a0|a1" -> family), one carve id per family.
 func zzC09TupleCarves(key string, a0, a1 int) {
+	fam := -1
+	if f, has := zzC09TupleKnown[key+"|"+strconv.Itoa(a0)+"|"+strconv.Itoa(a1)]; has {
+		fam = f
+	}
+	for f := 0; f < len(zzC09TupleFams); f++ {
+		vrt.Carve(zzC09TupleFams[f], fam == f)
+	}
 }
 
 // zzC09Guard runs f (which recovers its own panics) and reports how it ended:
@@ -706,4 +1007,14 @@ func zzC09Guard(steps, decisions int, f func()) int {
 			}
 		}
 	}
+}
+
+// VerifC09FormatOne is a development aid: the concrete control string
+// "~" b1 b2 "r" (bytes by alphabet index) with grid integer g.
+func VerifC09FormatOne(b1, b2, g int) {
+	ctl := []byte{'~', zzC09FmtAlpha[b1], zzC09FmtAlpha[b2], 'r'}
+	form := slip.List{slip.Symbol("format"), nil, slip.String(ctl), slip.Fixnum(zzC09FmtGrid[g])}
+	zzC09Streams()
+	vrt.Note("ctl", string(ctl))
+	zzC09Guarded(slip.NewScope(), form, nil)
 }
